@@ -45,8 +45,9 @@ TRUSTED = [
     "baseline ISA); little-endian layout of doubles; realloc succeeds and preserves contents; the pointer array "
     "of heap.pxd is represented by the sequence of rows it points to",
     "C03_b64_add_monotone, C03_prop_check_b64_sound_closed (float addition of non-negative doubles is monotone, "
-    "now proved) and C03_dijkstra_optimal_full64 rest on Coq's FloatAxioms add_spec, ltb_spec, eqb_spec, "
-    "Prim2SF_valid, SF2Prim_Prim2SF, Prim2SF_SF2Prim (the kernel's "
+    "now proved), C03_steps_ok_finite, C03_ltb_is_bit_order, C03_dijkstra_optimal_full64 and "
+    "C03_dijkstra_optimal_dropped_when_key_reflects rest on Coq's FloatAxioms add_spec, sub_spec, mul_spec, sqrt_spec, "
+    "abs_spec, ltb_spec, eqb_spec, Prim2SF_valid, SF2Prim_Prim2SF, Prim2SF_SF2Prim (the kernel's "
     "primitive floats implement the IEEE-754 specification SpecFloat) and on the axioms of Coq's classical reals used "
     "by Flocq: Classical_Prop.classic, ClassicalDedekindReals.sig_forall_dec / sig_not_dec, "
     "FunctionalExtensionality.functional_extensionality_dep; Flocq 4 (round_le, Bplus_correct, Bcompare_correct) is "
@@ -63,8 +64,9 @@ EXHAUSTIVE = {"quick": False, "thorough": False}
 # or lists kernel primitives): Coq's specification of primitive floats and the classical real numbers that
 # Flocq's rounding theory is built on
 _AX = ["add_spec", "Prim2SF_valid", "SF2Prim_Prim2SF", "Prim2SF_SF2Prim", "ltb_spec", "eqb_spec",
+       "sub_spec", "mul_spec", "sqrt_spec", "abs_spec",
        "sig_not_dec", "sig_forall_dec", "functional_extensionality_dep", "classic"]
-ALLOWED_AXIOMS = set(_AX) | {"FloatAxioms." + a for a in _AX[:6]} | {"Coq.Floats.FloatAxioms." + a for a in _AX[:6]} | {
+ALLOWED_AXIOMS = set(_AX) | {"FloatAxioms." + a for a in _AX[:10]} | {"Coq.Floats.FloatAxioms." + a for a in _AX[:10]} | {
     "ClassicalDedekindReals.sig_not_dec", "ClassicalDedekindReals.sig_forall_dec",
     "FunctionalExtensionality.functional_extensionality_dep", "Classical_Prop.classic",
     "Coq.Reals.ClassicalDedekindReals.sig_not_dec", "Coq.Reals.ClassicalDedekindReals.sig_forall_dec",
@@ -441,6 +443,10 @@ def attribute(ctx, case, out, clause):
     """F7 iff the implementation equals the Dropped model bit for bit and the Full64 model passes
     prop_check on this input (hint computed inside Coq)."""
     if not _well_formed(case, out) or "prop_check" not in (clause or ""):
+        return None
+    if _is_exact(case):
+        # C03_dijkstra_optimal_dropped_when_key_reflects: integer image, weight 0, path sums far below 2^52 -
+        # every occurring distance has dropped bit 0, the loop as written is optimal: F7 cannot be the cause
         return None
     e = evaluate_cases(ctx, [case], [out])[0]
     if e is None or e[0] != 1 or e[1] == 1:
